@@ -208,6 +208,37 @@ class Program:
                 return q
         return None
 
+    def implementation(self, qual, limit=4):
+        """follow thin delegations: a function whose whole body (after the docstring) is `return [list|tuple](callee(<its own parameters>))`
+        is implemented by the callee.  -> qualified name of the function that holds the code (qual itself when it does)"""
+        for _ in range(limit):
+            m, fn = self.func(qual)
+            body = [st for st in fn.body if not (isinstance(st, ast.Expr) and isinstance(st.value, ast.Constant) and isinstance(st.value.value, str))]
+            if len(body) != 1 or not isinstance(body[0], ast.Return) or body[0].value is None:
+                return qual
+            e = body[0].value
+            while isinstance(e, ast.Call) and isinstance(e.func, ast.Name) and e.func.id in ("list", "tuple") and len(e.args) == 1 and not e.keywords:
+                e = e.args[0]
+            if not isinstance(e, ast.Call):
+                return qual
+            params = [a.arg for a in fn.args.posonlyargs + fn.args.args + fn.args.kwonlyargs if a.arg not in ("self", "cls")]
+            passed = [a.id for a in e.args if isinstance(a, ast.Name)] + [k.value.id for k in e.keywords if isinstance(k.value, ast.Name)]
+            if len(passed) != len(e.args) + len(e.keywords) or sorted(passed) != sorted(params):
+                return qual
+            d = self.resolve(m, e.func)
+            t = self.repo_qual(d) if d else None
+            if t is None and isinstance(e.func, ast.Attribute) and isinstance(e.func.value, ast.Name) and e.func.value.id in ("self", "cls"):
+                owner = self.enclosing_class(qual)
+                t = self.find_method(owner, e.func.attr) if owner else None
+            if t is None or t == qual:
+                return qual
+            try:
+                self.func(t)
+            except AnchorMissing:
+                return qual
+            qual = t
+        return qual
+
     # -------------------------------------------------------------- utilities
     def enclosing_class(self, qual):
         parts = qual.split(".")
